@@ -95,6 +95,10 @@ def shards(tier, seed):
     return rtdriver.shards(tier, seed, quick_grids=6000, thorough_grids=300000)
 
 
+GEN_OPTIONS = {'zoneless': 0.2}      # fixed-offset tzinfo values: a zone with that offset at that instant, or ValueError
+NOT_JUDGED = ('dump-raises:ValueError',)
+
+
 def run_shard(spec, ctx):
     rtdriver.run_shard(_me, spec, ctx)
 
